@@ -1,8 +1,604 @@
 ---------------------------- MODULE RolloutsModel ----------------------------
-(* placeholder: the closed-loop model is being written; nothing is modelled yet *)
+(***************************************************************************)
+(* Closed-loop model of Kruise Rollouts: Rollout controller, BatchRelease  *)
+(* controller, the native workload controller (environment), the traffic   *)
+(* objects, the user, and time.                                            *)
+(*                                                                         *)
+(* Style: the state is ONE record s (same shape as the harness projection, *)
+(* harness/sim/project.go); every action a is a function Step(s, a)        *)
+(* returning the successor record.  Controller reconciles are written the  *)
+(* way the code is structured (one operator per function of the code, the  *)
+(* special-case dispatch orders kept), so that                             *)
+(*   - TLC explores the model exhaustively (MC_Rollouts.tla), and          *)
+(*   - every transition recorded from the REAL controllers can be checked  *)
+(*     for conformance: ModelView(post) = ModelView(Step(pre, act))        *)
+(*     (RolloutsTrace.tla, layer C).                                       *)
+(*                                                                         *)
+(* Time: every timestamp is one bit, "fresh" (inside every grace / pause   *)
+(* period) or expired; the action "tick" expires everything.               *)
+(* Modelled family: CloneSet / partition style, providers none, ingress    *)
+(* (any built-in class, abstracted to weight + match kind) and gateway.    *)
+(***************************************************************************)
 EXTENDS RolloutsProps
-Modelled(p, a) == FALSE
-Step(p, a) == p
-ModelView(s) == s
-ViewDiff(a, b) == {}
+
+\* ------------------------------------------------------------------ helpers
+SeqToSet(q) == {q[i] : i \in 1..Len(q)}
+\* canonical (sorted) sequence of a set of strings drawn from a fixed universe
+GraceUniverse == <<"patchService", "removeCanaryService", "restoreGateway", "restoreService", "updateRoute">>
+SetToSeq(S) == LET F[i \in 0..Len(GraceUniverse)] ==
+                     IF i = 0 THEN <<>>
+                     ELSE IF GraceUniverse[i] \in S THEN Append(F[i - 1], GraceUniverse[i]) ELSE F[i - 1]
+               IN  F[Len(GraceUniverse)]
+
+HasProvider(s) == s.net.provIngress \/ s.net.provGateway
+N(s) == Len(s.plan)
+
+\* workload as the controller finder sees it (pkg/util/controller_finder.go getKruiseCloneSet)
+WlCanaryRev(s)  == s.wl.updRev
+WlInRollback(s) == s.wl.inprog /\ s.wl.stableRev = s.wl.updRev /\ s.wl.stUpdated # s.wl.stRepl
+
+EmptySub(ro) == [ro EXCEPT !.hasSub = FALSE, !.step = 0, !.state = "", !.next = 0, !.fstep = "", !.hashOk = FALSE,
+                           !.hashSet = FALSE, !.canaryRev = 0, !.stableRev = 0, !.podHash = 0, !.fresh = FALSE, !.rid = ""]
+
+GoneRo == [exists |-> FALSE, deleting |-> FALSE, finalizer |-> FALSE, condFresh |-> FALSE, hasSub |-> FALSE, hashOk |-> FALSE,
+           hashSet |-> FALSE, fresh |-> FALSE, phase |-> "", reason |-> "", treason |-> "", succeeded |-> "", state |-> "",
+           fstep |-> "", rid |-> "", step |-> 0, next |-> 0, canaryRev |-> 0, stableRev |-> 0, podHash |-> 0,
+           thrKind |-> "none", thrVal |-> 0]
+
+GoneBr == [exists |-> FALSE, deleting |-> FALSE, finalizer |-> FALSE, planOk |-> FALSE, hashOk |-> FALSE, obsGenOk |-> FALSE,
+           rollbackAnno |-> FALSE, phase |-> "", bstate |-> "", policy |-> "", rid |-> "", obsRid |-> "", batch |-> 0, obsR |-> 0,
+           updRev |-> 0, stableRev |-> 0, nbatches |-> 0, stUpd |-> 0, stUpdRdy |-> 0, partition |-> -1, noNeed |-> -1,
+           plan |-> <<>>, thrKind |-> "none", thrVal |-> 0]
+
+\* the rollout-id the Rollout controller derives from the workload (rollout_status.go getRolloutID)
+RidName(rev) == CASE rev = 1 -> "v1" [] rev = 2 -> "v2" [] rev = 3 -> "v3" [] OTHER -> ""
+WlRolloutID(s) == IF s.wl.rid # "" THEN s.wl.rid ELSE RidName(WlCanaryRev(s))
+
+\* ------------------------------------------------------------ grace wrapper
+(* grace.RunWithGraceSeconds(key, action, f): f() first; if it modified something an expectation is
+   recorded (fresh) and the caller must retry; otherwise the caller retries while a fresh expectation
+   exists and is done (expectation observed) afterwards.  Result: [s, retry]. *)
+WithGrace(s, action, modified) ==
+  LET gf == SeqToSet(s.mem.gf)  gold == SeqToSet(s.mem.gold) IN
+  IF modified
+  THEN [s |-> [s EXCEPT !.mem.gf = SetToSeq(gf \cup {action}), !.mem.gold = SetToSeq(gold \ {action})], retry |-> TRUE, mod |-> TRUE]
+  ELSE IF action \in gf THEN [s |-> s, retry |-> TRUE, mod |-> FALSE]
+  ELSE [s |-> [s EXCEPT !.mem.gold = SetToSeq(gold \ {action})], retry |-> FALSE, mod |-> FALSE]
+NoOp(s) == [s |-> s, retry |-> FALSE, mod |-> FALSE]
+
+\* --------------------------------------------------- traffic routing manager
+\* pkg/trafficrouting/manager.go; every operator returns [s, retry] (retry = "not done yet")
+
+PatchStableService(s) ==       \* pin the stable Service to the stable revision
+  IF ~HasProvider(s) THEN NoOp(s)
+  ELSE IF s.net.noCanarySvc THEN [s |-> s, retry |-> TRUE, mod |-> FALSE]
+  ELSE LET need == s.net.stableSel # s.ro.stableRev
+           s1 == IF need THEN [s EXCEPT !.net.stableSel = s.ro.stableRev] ELSE s
+       IN  WithGrace(s1, "patchService", need)
+
+RestoreStableService(s) ==     \* remove the revision selector of the stable Service
+  IF ~HasProvider(s) \/ ~s.net.hasSvc THEN NoOp(s)
+  ELSE LET need == s.net.stableSel # 0
+           s1 == IF need THEN [s EXCEPT !.net.stableSel = 0] ELSE s
+       IN  WithGrace(s1, "restoreService", need)
+
+\* provider.Finalise: delete the canary Ingress / restore the HTTPRoute; TRUE iff something was modified
+GatewayDirty(net) == (net.provIngress /\ net.ing) \/ (net.provGateway /\ net.route /\ (net.rtCanaryW >= 0 \/ net.rtGenRules > 0 \/ net.rtStableW # 1))
+GatewayClean(net) == [net EXCEPT !.ing = FALSE, !.ingWeight = -1, !.ingMatch = "", !.ingPaths = 0, !.ingBackendOk = TRUE,
+                                 !.rtCanaryW = -1, !.rtGenRules = 0,
+                                 !.rtStableW = IF net.provGateway /\ net.route THEN 1 ELSE net.rtStableW,
+                                 !.rtRules = IF net.provGateway /\ net.route THEN net.rtRules - net.rtGenRules ELSE net.rtRules]
+
+RestoreGateway(s) ==
+  IF ~HasProvider(s) THEN NoOp(s)
+  ELSE LET need == GatewayDirty(s.net)
+           s1 == IF need THEN [s EXCEPT !.net = GatewayClean(s.net)] ELSE s
+       IN  WithGrace(s1, "restoreGateway", need)
+
+RemoveCanaryService(s) ==
+  IF ~HasProvider(s) \/ s.net.noCanarySvc THEN NoOp(s)
+  ELSE LET need == s.net.canarySvc
+           s1 == IF need THEN [s EXCEPT !.net.canarySvc = FALSE, !.net.canarySel = 0, !.net.canaryOwned = FALSE] ELSE s
+       IN  WithGrace(s1, "removeCanaryService", need)
+
+\* FinalisingTrafficRouting: stable Service, gateway, canary Service (each may ask for a retry)
+FinalisingTrafficRouting(s) ==
+  IF ~HasProvider(s) THEN NoOp(s)
+  ELSE LET a == RestoreStableService(s) IN
+       IF a.retry THEN a
+       ELSE LET b == RestoreGateway(a.s) IN
+            IF b.retry THEN b ELSE RemoveCanaryService(b.s)
+\* the stable-Service and gateway helpers stamp tr.LastUpdateTime when they modify something; only some
+\* callers copy it into the persisted status (canaryStatus.lastUpdateTime)
+Stamp(r) == IF r.mod THEN [r.s EXCEPT !.ro.fresh = TRUE] ELSE r.s
+
+\* provider.EnsureRoutes for a step st: [net, verified]
+EnsureIngress(net, st) ==
+  IF ~net.provIngress THEN [net |-> net, ok |-> TRUE]
+  ELSE IF ~net.ing
+       THEN IF st.traffic = 0 THEN [net |-> net, ok |-> TRUE]
+            ELSE [net |-> [net EXCEPT !.ing = TRUE, !.ingWeight = 0, !.ingMatch = "", !.ingPaths = 1, !.ingBackendOk = TRUE], ok |-> FALSE]
+       ELSE LET w == st.traffic
+                m == IF st.match \in {"header", "header2"} THEN "header" ELSE st.match
+            IN  IF net.ingWeight = w /\ net.ingMatch = m THEN [net |-> net, ok |-> TRUE]
+                ELSE [net |-> [net EXCEPT !.ingWeight = w, !.ingMatch = m], ok |-> FALSE]
+
+EnsureGateway(net, st) ==
+  IF ~net.provGateway THEN [net |-> net, ok |-> TRUE]
+  ELSE LET desired ==
+             IF st.match # ""
+             THEN [net EXCEPT !.rtGenRules = 1, !.rtRules = (net.rtRules - net.rtGenRules) + 1]
+             ELSE [net EXCEPT !.rtStableW = 100 - st.traffic, !.rtCanaryW = st.traffic]
+       IN  IF desired = net THEN [net |-> net, ok |-> TRUE] ELSE [net |-> desired, ok |-> FALSE]
+
+EnsureRoutes(net, st) ==
+  LET a == EnsureIngress(net, st)
+      b == EnsureGateway(a.net, st)
+  IN  [net |-> b.net, ok |-> a.ok /\ b.ok]
+
+\* Manager.DoTrafficRouting for the rollout's current step: [s, done]
+DoTrafficRouting(s) ==
+  LET st == s.plan[s.ro.step] IN
+  IF ~HasProvider(s) \/ ~HasTraffic(st) THEN [s |-> s, done |-> TRUE]
+  ELSE IF ~s.net.hasSvc THEN [s |-> s, done |-> FALSE]
+  ELSE IF s.ro.fresh THEN [s |-> s, done |-> FALSE]                        \* wait the grace period after the last change
+  ELSE LET svcStep ==
+             IF s.net.noCanarySvc THEN [s |-> s, mod |-> FALSE, stop |-> FALSE]
+             ELSE IF s.ro.stableRev = 0 \/ s.ro.podHash = 0 THEN [s |-> s, mod |-> FALSE, stop |-> TRUE]
+             ELSE LET s1 == IF ~s.net.canarySvc
+                            THEN [s EXCEPT !.net.canarySvc = TRUE, !.net.canarySel = s.ro.podHash, !.net.canaryOwned = TRUE]
+                            ELSE IF s.net.canarySel # s.ro.podHash THEN [s EXCEPT !.net.canarySel = s.ro.podHash] ELSE s
+                      s2 == IF s1.net.stableSel # s.ro.stableRev THEN [s1 EXCEPT !.net.stableSel = s.ro.stableRev] ELSE s1
+                  IN  [s |-> s2, mod |-> s2 # s, stop |-> FALSE]
+       IN  IF svcStep.stop THEN [s |-> s, done |-> FALSE]
+           ELSE IF svcStep.mod THEN [s |-> [svcStep.s EXCEPT !.ro.fresh = TRUE], done |-> FALSE]
+           ELSE LET e == EnsureRoutes(s.net, st)
+                IN  [s |-> [s EXCEPT !.net = e.net], done |-> e.ok]
+
+\* -------------------------------------------------------- release manager
+DesiredBrPlan(s) == [i \in 1..N(s) |-> [rep |-> s.plan[i].rep, pct |-> s.plan[i].pct, traffic |-> -1, match |-> "", pause |-> -1, is100 |-> s.plan[i].is100]]
+
+\* runBatchRelease(step): create or update the BatchRelease so that it equals the desired one; [s, done]
+RunBatchRelease(s) ==
+  LET want == s.ro.step - 1
+      rid  == WlRolloutID(s)
+  IN  IF ~s.br.exists
+      THEN [s |-> [s EXCEPT !.br = [GoneBr EXCEPT !.exists = TRUE, !.partition = want, !.planOk = TRUE, !.nbatches = N(s),
+                                                   !.plan = DesiredBrPlan(s), !.rid = rid,
+                                                   !.thrKind = s.ro.thrKind, !.thrVal = s.ro.thrVal]], done |-> FALSE]
+      ELSE IF s.br.planOk /\ s.br.partition = want /\ s.br.rid = rid /\ s.br.policy = "" /\ ~s.br.rollbackAnno
+           THEN [s |-> s, done |-> TRUE]
+           ELSE [s |-> [s EXCEPT !.br.partition = want, !.br.planOk = TRUE, !.br.plan = DesiredBrPlan(s), !.br.nbatches = N(s),
+                                 !.br.rid = rid, !.br.policy = "", !.br.rollbackAnno = FALSE,
+                                 !.br.obsGenOk = FALSE, !.br.hashOk = FALSE], done |-> FALSE]
+
+\* doCanaryUpgrade: [s, done]
+DoCanaryUpgrade(s) ==
+  LET r == RunBatchRelease(s) IN
+  IF ~r.done THEN [s |-> r.s, done |-> FALSE]
+  ELSE IF ~s.br.hashOk \/ ~s.br.obsGenOk THEN [s |-> s, done |-> FALSE]
+  ELSE IF s.br.bstate # "Ready" \/ s.br.batch + 1 < s.ro.step THEN [s |-> s, done |-> FALSE]
+  ELSE [s |-> [s EXCEPT !.ro.podHash = s.wl.updRev], done |-> TRUE]
+
+\* doCanaryJump (after fix b0b3f0b): TRUE iff the user-patched nextStepIndex differs from the natural one
+JumpWanted(s) == s.ro.next # NextIdx(s, s.ro.step) /\ s.ro.next > 0
+DoCanaryJump(s) ==
+  LET nx == s.ro.next
+      eq == SameReplicas(s.plan[nx], s.plan[s.ro.step]) /\ s.ro.state \notin {"BeforeStepUpgrade", "StepUpgrade"}
+  IN  [s EXCEPT !.ro.step = nx, !.ro.next = NextIdx(s, nx),
+                !.ro.state = IF eq THEN "StepTrafficRouting" ELSE "BeforeStepUpgrade", !.ro.fresh = TRUE]
+
+\* partition-style step that replaces every stable pod: restore the stable Service first (ingress-nginx 9635)
+ExpectedAll(s) == FullPartitionStep(s, s.ro.step)
+
+\* runCanary, partition / canary style (rollout_canary.go)
+RunCanary(s0) ==
+  LET \* syncBatchRelease: propagate the rollout-id to the BatchRelease
+      s1 == IF s0.br.exists /\ s0.ro.rid # s0.br.rid
+            THEN [s0 EXCEPT !.br.rid = s0.ro.rid, !.br.obsGenOk = FALSE, !.br.hashOk = FALSE] ELSE s0
+      s  == IF s1.ro.podHash = 0 THEN [s1 EXCEPT !.ro.podHash = s1.wl.updRev] ELSE s1
+  IN
+  IF JumpWanted(s) THEN DoCanaryJump(s)
+  ELSE
+  LET k  == s.ro.step
+      st == s.plan[k]
+      pre == IF ~HasTraffic(st) THEN FinalisingTrafficRouting(s) ELSE NoOp(s)
+      \* RestoreStableService / RestoreGateway stamp tr.LastUpdateTime, RemoveCanaryService does not
+      stampPre == (pre.s.net.stableSel # s.net.stableSel) \/ (GatewayDirty(s.net) /\ ~GatewayDirty(pre.s.net))
+  IN
+  IF pre.retry THEN (IF stampPre THEN [pre.s EXCEPT !.ro.fresh = TRUE] ELSE pre.s)
+  ELSE LET t == IF stampPre THEN [pre.s EXCEPT !.ro.fresh = TRUE] ELSE pre.s IN
+  CASE t.ro.state = "BeforeStepUpgrade" ->
+         IF ~HasTraffic(st)
+         THEN [t EXCEPT !.ro.state = "StepUpgrade"]
+         ELSE LET a == IF ExpectedAll(t) THEN RestoreStableService(t) ELSE NoOp(t) IN
+              IF a.retry THEN a.s
+              ELSE LET b == IF k = 1 /\ ~t.net.noCanarySvc THEN PatchStableService(a.s) ELSE NoOp(a.s) IN
+                   IF b.retry THEN b.s
+                   ELSE LET u == [b.s EXCEPT !.ro.state = "StepUpgrade", !.ro.fresh = TRUE]
+                            d == DoCanaryUpgrade(u)
+                        IN  IF d.done
+                            THEN [d.s EXCEPT !.ro.state = IF ExpectedAll(u) THEN "StepMetricsAnalysis" ELSE "StepTrafficRouting", !.ro.fresh = TRUE]
+                            ELSE d.s
+    [] t.ro.state = "StepUpgrade" ->
+         LET d == DoCanaryUpgrade(t) IN
+         IF d.done
+         THEN [d.s EXCEPT !.ro.state = IF ExpectedAll(t) THEN "StepMetricsAnalysis" ELSE "StepTrafficRouting", !.ro.fresh = TRUE]
+         ELSE d.s
+    [] t.ro.state = "StepTrafficRouting" ->
+         LET d == DoTrafficRouting(t) IN
+         IF d.done THEN [d.s EXCEPT !.ro.state = "StepMetricsAnalysis", !.ro.fresh = TRUE] ELSE d.s
+    [] t.ro.state = "StepMetricsAnalysis" -> [t EXCEPT !.ro.state = "StepPaused"]
+    [] t.ro.state = "StepPaused" ->
+         IF PauseSatisfied(t, k) THEN [t EXCEPT !.ro.state = "StepReady", !.ro.fresh = TRUE] ELSE t
+    [] t.ro.state = "StepReady" ->
+         IF N(t) > k
+         THEN [t EXCEPT !.ro.step = k + 1, !.ro.next = NextIdx(t, k + 1), !.ro.state = "BeforeStepUpgrade", !.ro.fresh = TRUE]
+         ELSE [t EXCEPT !.ro.state = "Completed", !.ro.fresh = TRUE]
+    [] OTHER -> t
+
+\* finalising task orders (rollout_canary.go nextCanaryTask)
+TaskSeq(reason) ==
+  IF reason = "Rollback"
+  THEN <<"FinalisingStepRouteTrafficToStable", "ResumeWorkload", "ReleaseWorkloadControl", "RestoreStableService", "RemoveCanaryService">>
+  ELSE <<"RestoreStableService", "FinalisingStepRouteTrafficToStable", "RemoveCanaryService", "ResumeWorkload", "ReleaseWorkloadControl">>
+
+NextTask(reason, cur) ==
+  LET q == TaskSeq(reason) IN
+  IF cur = "" THEN q[1]
+  ELSE IF \E i \in 1..(Len(q) - 1) : q[i] = cur THEN q[(CHOOSE i \in 1..(Len(q) - 1) : q[i] = cur) + 1] ELSE "END"
+
+\* finalizingBatchRelease(waitReady): [s, retry]
+FinalizingBatchRelease(s, waitReady) ==
+  IF ~s.br.exists THEN [s |-> s, retry |-> FALSE]
+  ELSE IF s.br.partition = -1 /\ s.br.phase = "Completed" THEN [s |-> s, retry |-> FALSE]
+  ELSE IF s.br.partition = -1 /\ ((s.br.policy = "WaitResume") = waitReady) THEN [s |-> s, retry |-> TRUE]
+  ELSE [s |-> [s EXCEPT !.br.partition = -1, !.br.policy = IF waitReady THEN "WaitResume" ELSE "Immediate",
+                        !.br.obsGenOk = FALSE, !.br.hashOk = FALSE], retry |-> TRUE]
+
+\* removeBatchRelease: [s, retry]
+RemoveBatchRelease(s) ==
+  IF ~s.br.exists THEN [s |-> s, retry |-> FALSE]
+  ELSE IF s.br.deleting THEN [s |-> s, retry |-> TRUE]
+  ELSE IF s.br.finalizer THEN [s |-> [s EXCEPT !.br.deleting = TRUE], retry |-> TRUE]
+  ELSE [s |-> [s EXCEPT !.br = GoneBr], retry |-> TRUE]
+
+\* doCanaryFinalising(reason, waitReady): [s, done]
+DoFinalising(s0, reason, waitReady) ==
+  IF ~s0.ro.hasSub THEN [s |-> s0, done |-> TRUE]
+  ELSE
+  LET s1 == IF s0.wl.exists /\ s0.wl.inprog /\ s0.wl.genOk THEN [s0 EXCEPT !.wl.inprog = FALSE] ELSE s0   \* removeRolloutProgressingAnnotation
+      nx == NextTask(reason, s1.ro.fstep)
+      s  == IF s1.ro.fstep = "" THEN [s1 EXCEPT !.ro.fstep = nx, !.ro.fresh = TRUE] ELSE s1
+  IN
+  IF s.ro.fstep = "END" THEN [s |-> s, done |-> TRUE]
+  ELSE
+  LET cur == s.ro.fstep
+      nxt == nx        \* computed from the step persisted BEFORE this reconcile: the first task is re-run once
+      r == CASE cur = "ResumeWorkload" -> FinalizingBatchRelease(s, waitReady)
+             [] cur = "ReleaseWorkloadControl" -> RemoveBatchRelease(s)
+             [] cur = "FinalisingStepRouteTrafficToStable" -> RestoreGateway(s)
+             [] cur = "RestoreStableService" -> RestoreStableService(s)
+             [] cur = "RemoveCanaryService" -> RemoveCanaryService(s)
+             [] OTHER -> [s |-> s, retry |-> TRUE]
+  IN  IF r.retry THEN [s |-> r.s, done |-> FALSE]
+      ELSE [s |-> [r.s EXCEPT !.ro.fstep = nxt, !.ro.fresh = TRUE], done |-> nxt = "END"]
+
+\* handleContinuousRelease / doProgressingReset: gateway -> BatchRelease -> canary Service
+RoContinuous(s) ==
+  IF ~HasProvider(s)
+  THEN LET r == RemoveBatchRelease(s) IN
+       IF r.retry THEN r.s ELSE [r.s EXCEPT !.ro = [EmptySub(r.s.ro) EXCEPT !.reason = "Initializing"]]
+  ELSE
+  LET s1 == IF s.ro.fstep \notin {"FinalisingStepRouteTrafficToStable", "ReleaseWorkloadControl", "RemoveCanaryService"}
+            THEN [s EXCEPT !.ro.fstep = "FinalisingStepRouteTrafficToStable"] ELSE s
+      resetDone(x) == [x EXCEPT !.ro = [EmptySub(x.ro) EXCEPT !.reason = "Initializing"]]
+      fromSvc(x) == LET c == RemoveCanaryService(x) IN resetDone(c.s)
+      fromBr(x) == LET b == RemoveBatchRelease(x) IN
+                   IF b.retry THEN b.s ELSE fromSvc([b.s EXCEPT !.ro.fstep = "RemoveCanaryService", !.ro.fresh = TRUE])
+  IN  CASE s1.ro.fstep = "FinalisingStepRouteTrafficToStable" ->
+             LET g == RestoreGateway(s1) IN
+             IF g.retry THEN Stamp(g) ELSE fromBr([g.s EXCEPT !.ro.fstep = "ReleaseWorkloadControl", !.ro.fresh = TRUE])
+        [] s1.ro.fstep = "ReleaseWorkloadControl" -> fromBr(s1)
+        [] OTHER -> fromSvc(s1)
+
+\* handleRolloutPlanChanged / recalculateCanaryStep
+RoPlanChanged(s) ==
+  LET R == s.wl.R
+      cur == IF s.br.exists /\ s.br.partition >= 0 /\ s.br.partition + 1 <= Len(s.br.plan)
+             THEN (IF IsPct(s.br.plan[s.br.partition + 1]) THEN ScaledUp(s.br.plan[s.br.partition + 1].pct, R) ELSE s.br.plan[s.br.partition + 1].rep)
+             ELSE -1
+      Des(i) == IF IsPct(s.plan[i]) THEN ScaledUp(s.plan[i].pct, R) ELSE s.plan[i].rep
+      ci == s.ro.step
+      order == (IF ci \in 1..N(s) THEN <<ci>> ELSE <<>>) \o SelectSeq([i \in 1..N(s) |-> i], LAMBDA i : i # ci)
+      \* first index (in that order) whose desired replicas cover the current ones, else the last one tried
+      Pick[j \in 1..Len(order)] == IF cur <= Des(order[j]) \/ j = Len(order) THEN order[j] ELSE Pick[j + 1]
+      newIdx == IF ~s.br.exists THEN 1 ELSE Pick[1]
+  IN  IF s.ro.next = newIdx
+      THEN [s EXCEPT !.ro.state = "StepReady", !.ro.fresh = TRUE, !.ro.hashOk = TRUE]
+      ELSE LET s1 == [s EXCEPT !.ro.next = newIdx, !.ro.fresh = TRUE, !.ro.hashOk = TRUE]
+           IN  IF JumpWanted(s1) THEN DoCanaryJump(s1) ELSE s1
+
+\* ------------------------------------------------------- Rollout reconcile
+\* reconcileRolloutProgressing, dispatched on the PERSISTED reason; ns carries the new status being built
+RoProgressing(s, old) ==
+  IF ~s.wl.exists \/ ~s.wl.genOk THEN s
+  ELSE
+  CASE old.reason = "Initializing" ->
+         LET s1 == [s EXCEPT !.ro = [EmptySub(s.ro) EXCEPT !.hasSub = TRUE, !.step = 1, !.next = NextIdx(s, 1), !.state = "BeforeStepUpgrade",
+                                                         !.fresh = TRUE, !.hashOk = TRUE, !.hashSet = TRUE, !.canaryRev = WlCanaryRev(s),
+                                                         !.stableRev = s.wl.stableRev, !.rid = WlRolloutID(s)]]
+         IN  IF s.ro.condFresh THEN s1 ELSE [s1 EXCEPT !.ro.reason = "InRolling"]
+    [] old.reason = "InRolling" ->
+         IF WlInRollback(s) /\ WlCanaryRev(s) # old.canaryRev
+         THEN [s EXCEPT !.ro.canaryRev = WlCanaryRev(s), !.ro.reason = "Cancelling"]
+         ELSE IF s.user.paused THEN [s EXCEPT !.ro.reason = "Paused"]
+         ELSE IF old.canaryRev # 0 /\ WlCanaryRev(s) # old.canaryRev /\ ~WlInRollback(s) THEN RoContinuous(s)
+         ELSE IF old.hashSet /\ ~old.hashOk THEN RoPlanChanged(s)
+         ELSE IF s.ro.state = "Completed" THEN [s EXCEPT !.ro.reason = "Finalising"]
+         ELSE RunCanary(s)
+    [] old.reason = "Finalising" ->
+         LET d == DoFinalising(s, "Success", TRUE) IN
+         IF d.done THEN [d.s EXCEPT !.ro.reason = "Completed", !.ro.succeeded = "True"] ELSE d.s
+    [] old.reason = "Paused" ->
+         IF ~s.user.paused THEN [s EXCEPT !.ro.reason = "InRolling"] ELSE s
+    [] old.reason = "Cancelling" ->
+         LET d == DoFinalising(s, "Rollback", FALSE) IN
+         IF d.done THEN [d.s EXCEPT !.ro.reason = "Completed", !.ro.succeeded = "False"] ELSE d.s
+    [] old.reason = "Completed" -> [s EXCEPT !.ro.phase = "Healthy"]
+    [] OTHER -> s
+
+\* the phase handlers are selected by the PERSISTED phase (rollout.Status.Phase), not by the new one
+RoDispatch(s, old) ==
+  CASE old.phase = "Progressing" -> RoProgressing(s, old)
+    [] old.phase = "Terminating" ->
+         IF old.treason = "Completed" THEN s
+         ELSE IF s.wl.exists /\ ~s.wl.genOk THEN s                       \* fix 1770707: wait for a consistent workload
+         ELSE LET d == DoFinalising(s, "RolloutDeleting", FALSE) IN
+              IF d.done THEN [d.s EXCEPT !.ro.treason = "Completed"] ELSE d.s
+    [] old.phase = "Disabling" ->
+         LET d == DoFinalising(s, "RolloutDisabled", FALSE) IN
+         IF d.done THEN [d.s EXCEPT !.ro.phase = "Disabled"] ELSE d.s
+    [] OTHER -> s
+
+\* calculateRolloutStatus + phase dispatch + status write (rollout_controller.go Reconcile)
+RoStep(s0) ==
+  IF ~s0.ro.exists THEN s0
+  ELSE
+  \* handleFinalizer
+  IF s0.ro.deleting /\ s0.ro.treason = "Completed" /\ s0.ro.finalizer
+  THEN LET g == [s0 EXCEPT !.ro = GoneRo] IN
+       IF g.wl.exists /\ ~g.wl.wtype THEN [g EXCEPT !.wl.wtype = TRUE] ELSE g
+  ELSE
+  LET sA == IF ~s0.ro.deleting /\ ~s0.ro.finalizer THEN [s0 EXCEPT !.ro.finalizer = TRUE] ELSE s0
+      sB == IF sA.wl.exists /\ ~sA.wl.wtype THEN [sA EXCEPT !.wl.wtype = TRUE] ELSE sA       \* patchWorkloadRolloutWebhookLabel
+      old == sB.ro
+  IN
+  IF old.deleting
+  THEN LET sC == IF old.phase # "Terminating" THEN [sB EXCEPT !.ro.phase = "Terminating", !.ro.treason = "InTerminating"] ELSE sB IN
+       RoDispatch(sC, old)
+  ELSE
+  LET sC == IF sB.user.disabled /\ old.phase \notin {"Disabled", "Disabling"}
+            THEN [sB EXCEPT !.ro.phase = IF old.phase = "Progressing" THEN "Disabling" ELSE "Disabled"] ELSE sB
+      sD == IF sC.ro.phase = "" THEN [sC EXCEPT !.ro.phase = "Initial"] ELSE sC
+  IN
+  IF ~sD.wl.exists
+  THEN IF ~sD.user.disabled THEN [sD EXCEPT !.ro = [EmptySub(sD.ro) EXCEPT !.phase = "Initial", !.reason = "", !.succeeded = "", !.treason = ""]] ELSE RoDispatch(sD, old)
+  ELSE IF ~sD.wl.genOk THEN sB          \* retry later: nothing but the finalizer / label was written
+  ELSE
+  LET sE == IF sD.ro.hasSub /\ sD.ro.canaryRev # 0 /\ sD.ro.canaryRev = WlCanaryRev(sD) THEN [sD EXCEPT !.ro.rid = WlRolloutID(sD)] ELSE sD
+      sF == CASE sE.ro.phase = "Initial" -> [sE EXCEPT !.ro.phase = "Healthy"]
+              [] sE.ro.phase = "Healthy" ->
+                   IF sE.wl.inprog
+                   THEN [sE EXCEPT !.ro.phase = "Progressing", !.ro.reason = "Initializing", !.ro.condFresh = TRUE, !.ro.succeeded = ""]
+                   ELSE IF ~sE.ro.hasSub
+                   THEN [sE EXCEPT !.ro = [sE.ro EXCEPT !.hasSub = TRUE, !.step = N(sE), !.next = -1, !.state = "Completed", !.hashOk = TRUE, !.hashSet = TRUE,
+                                                        !.canaryRev = WlCanaryRev(sE), !.stableRev = sE.wl.stableRev, !.podHash = sE.wl.updRev,
+                                                        !.rid = WlRolloutID(sE)]]
+                   ELSE sE
+              [] sE.ro.phase = "Disabled" -> IF ~sE.user.disabled THEN [sE EXCEPT !.ro.phase = "Healthy"] ELSE sE
+              [] OTHER -> sE
+  IN  RoDispatch(sF, old)
+
+\* ---------------------------------------------------- BatchRelease reconcile
+BrPlanned(s, b) == PlannedOf(s.br.plan[b + 1], s.wl.R)
+
+\* CloneSet control: the knob for batch b and UpgradeBatch (only ever lowers the partition)
+BrUpgradeKnob(s) ==
+  LET want == DesiredCloneSetKnob(s.br.plan[s.br.batch + 1], s.wl.R)
+      cur  == PartitionCount(s.wl.ktype, s.wl.kval, s.wl.R)
+      des  == PartitionCount(want.ktype, want.kval, s.wl.R)
+  IN  IF cur <= des THEN s ELSE [s EXCEPT !.wl.ktype = want.ktype, !.wl.kval = want.kval, !.wl.genOk = FALSE]
+
+\* labelling pass (PatchPodBatchLabel), counted only: live updated pods carrying the release's rollout-id
+LabelAfterPass(s) ==
+  IF s.br.rid = "" THEN s.wl.labelled
+  ELSE Max(s.wl.labelled, Min(s.wl.n[s.wl.updRev], BrPlanned(s, s.br.batch)))
+
+LabelledForRelease(s) == Cardinality({i \in 1..Len(s.wl.lab) : TRUE})   \* refined in the label model; see LabelPatch.tla
+
+BrReadyNow(s) ==
+  /\ ReadyPred(s.wl.stUpdated, s.wl.stUpdRdy, BrPlanned(s, s.br.batch), s.br.thrKind, s.br.thrVal)
+  /\ (s.br.rid = "" \/ s.wl.labelled >= BrPlanned(s, s.br.batch))
+
+BrStep(s0) ==
+  IF ~s0.br.exists THEN s0
+  ELSE
+  \* handleFinalizer
+  IF s0.br.deleting /\ s0.br.phase = "Completed" /\ s0.br.finalizer THEN [s0 EXCEPT !.br = GoneBr]
+  ELSE
+  LET sA == IF ~s0.br.finalizer THEN [s0 EXCEPT !.br.finalizer = TRUE] ELSE s0
+      st0 == IF sA.br.phase = "" THEN [sA EXCEPT !.br.phase = "Preparing", !.br.obsR = -1] ELSE sA     \* getInitializedStatus
+      wlGone == ~st0.wl.exists
+      \* SyncWorkloadInformation
+      ev == IF st0.br.deleting THEN "normal"
+            ELSE IF wlGone THEN "gone"
+            ELSE IF ~st0.wl.genOk THEN "unstable"
+            ELSE IF st0.wl.stRepl = st0.wl.stUpdated THEN "normal"
+            ELSE IF st0.br.obsR # -1 /\ st0.wl.R # st0.br.obsR THEN "scaling"
+            ELSE IF st0.br.updRev # 0 /\ st0.wl.updRev = st0.wl.stableRev /\ st0.br.stableRev = st0.wl.updRev /\ st0.br.stableRev # st0.br.updRev THEN "rollback"
+            ELSE IF st0.br.updRev # 0 /\ st0.wl.updRev # st0.br.updRev THEN "revision"
+            ELSE "normal"
+      p == st0.br
+      \* special cases, in the order of syncStatusBeforeExecuting: [s, stop]
+      sp == IF p.phase = "Completed" THEN [s |-> st0, stop |-> TRUE]
+            ELSE IF p.deleting \/ p.phase = "Finalizing" \/ p.partition = -1 THEN [s |-> [st0 EXCEPT !.br.phase = "Finalizing"], stop |-> FALSE]
+            ELSE IF ~p.hashOk /\ p.phase = "Progressing"
+                 THEN [s |-> [st0 EXCEPT !.br.batch = IF p.partition >= 0 /\ p.rid = p.obsRid THEN Min(p.partition, Len(p.plan) - 1) ELSE 0,
+                                         !.br.bstate = "Upgrading", !.br.hashOk = TRUE, !.br.obsRid = p.rid], stop |-> FALSE]
+            ELSE IF p.batch >= Len(p.plan) /\ p.phase = "Progressing"
+                 THEN [s |-> [st0 EXCEPT !.br = [p EXCEPT !.phase = "Preparing", !.stableRev = 0, !.updRev = 0, !.hashOk = TRUE, !.obsR = -1,
+                                                         !.batch = 0, !.bstate = "", !.stUpd = 0, !.stUpdRdy = 0, !.noNeed = -1]], stop |-> FALSE]
+            ELSE IF ev = "gone" /\ p.phase \notin {"Initial", ""} THEN [s |-> [st0 EXCEPT !.br.phase = "Finalizing"], stop |-> FALSE]
+            ELSE IF ev = "scaling" /\ p.phase = "Progressing" THEN [s |-> [st0 EXCEPT !.br.bstate = "Upgrading", !.br.obsR = st0.wl.R], stop |-> FALSE]
+            ELSE IF ev = "revision" /\ p.phase = "Progressing" THEN [s |-> [st0 EXCEPT !.br.updRev = st0.wl.updRev], stop |-> TRUE]
+            ELSE IF ev = "unstable" THEN [s |-> st0, stop |-> TRUE]
+            ELSE [s |-> st0, stop |-> FALSE]
+      \* refreshStatus
+      sR == LET x == sp.s IN
+            LET y == IF x.wl.exists /\ ~x.br.deleting THEN [x EXCEPT !.br.stUpd = x.wl.stUpdated, !.br.stUpdRdy = x.wl.stUpdRdy] ELSE x
+                z == IF sA.br.phase = "" THEN [y EXCEPT !.br.hashOk = TRUE] ELSE y     \* an empty observed hash is initialised
+            IN  [z EXCEPT !.br.obsRid = z.br.rid]
+      changed == [sR.br EXCEPT !.obsGenOk = TRUE] # [sA.br EXCEPT !.obsGenOk = TRUE]
+      fin(x) == [x EXCEPT !.br.obsGenOk = TRUE]                           \* updateStatus: observedGeneration := generation
+  IN
+  IF sp.stop \/ changed THEN fin(sR)
+  ELSE
+  CASE sR.br.phase = "Preparing" ->
+         \* Initialize: claim the workload (control-info annotation, partition 100%, un-paused), record revisions
+         LET claimed == IF sR.wl.ctrl THEN sR ELSE [sR EXCEPT !.wl.ctrl = TRUE, !.wl.ktype = "pct", !.wl.kval = 100, !.wl.paused = FALSE,
+                                                              !.wl.genOk = (sR.wl.ktype = "pct" /\ sR.wl.kval = 100 /\ ~sR.wl.paused /\ sR.wl.genOk)]
+         IN  fin([claimed EXCEPT !.br.phase = "Progressing", !.br.stableRev = sR.wl.stableRev, !.br.updRev = sR.wl.updRev, !.br.obsR = sR.wl.R])
+    [] sR.br.phase = "Progressing" ->
+         CASE sR.br.bstate \in {"", "Upgrading"} ->
+                IF sR.wl.R = 0 THEN fin([sR EXCEPT !.br.bstate = "Verifying"])
+                ELSE LET k == BrUpgradeKnob(sR)
+                         l == [k EXCEPT !.wl.labelled = LabelAfterPass(k)]
+                     IN  fin([l EXCEPT !.br.bstate = "Verifying"])
+           [] sR.br.bstate = "Verifying" ->
+                IF sR.wl.R = 0 \/ BrReadyNow(sR) THEN fin([sR EXCEPT !.br.bstate = "Ready"]) ELSE fin([sR EXCEPT !.br.bstate = "Upgrading"])
+           [] sR.br.bstate = "Ready" ->
+                IF ~(sR.wl.R = 0 \/ BrReadyNow(sR)) THEN fin([sR EXCEPT !.br.bstate = "Upgrading"])
+                ELSE IF sR.br.partition >= 0 /\ sR.br.partition <= sR.br.batch THEN fin(sR)
+                ELSE fin([sR EXCEPT !.br.batch = IF sR.br.partition = -1 \/ sR.br.partition > sR.br.batch THEN sR.br.batch + 1 ELSE sR.br.batch,
+                                    !.br.bstate = "Upgrading"])
+           [] OTHER -> fin(sR)
+    [] sR.br.phase = "Finalizing" ->
+         \* Finalize: release the workload (and promote it when batchPartition is nil)
+         LET rel == IF ~sR.wl.exists THEN sR
+                    ELSE IF sR.br.partition = -1
+                         THEN [sR EXCEPT !.wl.ctrl = FALSE, !.wl.ktype = "none", !.wl.kval = 0, !.wl.paused = FALSE,
+                                         !.wl.genOk = (sR.wl.ktype = "none" /\ ~sR.wl.paused /\ sR.wl.genOk)]
+                         ELSE [sR EXCEPT !.wl.ctrl = FALSE]
+         IN  fin([rel EXCEPT !.br.phase = "Completed"])
+    [] OTHER -> fin(sR)
+
+\* -------------------------------------------------------------- environment
+\* simulated CloneSet controller (harness/sim/cloneset.go)
+Pods(s) == s.wl.n[1] + s.wl.n[2] + s.wl.n[3]
+Recount(s) ==
+  LET u == s.wl.updRev
+      all == Pods(s)
+      rdy == s.wl.rd[1] + s.wl.rd[2] + s.wl.rd[3]
+      s1 == [s EXCEPT !.wl.stRepl = all, !.wl.stUpdated = s.wl.n[u], !.wl.stUpdRdy = s.wl.rd[u]]
+  IN  IF s.wl.n[u] = all /\ s.wl.rd[u] >= all /\ all = s.wl.R THEN [s1 EXCEPT !.wl.stableRev = u] ELSE s1
+
+EnvObserved(s) == s.wl.genOk /\ s.wl.updRev = s.wl.specRev
+OldPods(s) == Pods(s) - s.wl.n[s.wl.specRev]
+EnvEnabled(s, a) ==
+  /\ s.wl.exists
+  /\ CASE a = "env.observe" -> ~EnvObserved(s)
+       [] a = "env.update"  -> EnvObserved(s) /\ ~s.wl.paused /\ OldPods(s) > PartitionCount(s.wl.ktype, s.wl.kval, s.wl.R)
+       [] a = "env.ready"   -> EnvObserved(s) /\ \E r \in 1..3 : s.wl.rd[r] < s.wl.n[r]
+       [] a = "env.scale"   -> EnvObserved(s) /\ Pods(s) # s.wl.R
+       [] OTHER -> FALSE
+
+\* which revision loses / gains a pod is decided by pod names in the harness; the model takes the lowest revision
+LowestOld(s) == CHOOSE r \in 1..3 : r # s.wl.specRev /\ s.wl.n[r] > 0 /\ \A q \in 1..3 : (q # s.wl.specRev /\ s.wl.n[q] > 0) => r <= q
+
+\* pod-level steps: which pod is recreated / becomes ready is decided by pod names in the harness, so the
+\* model gives the SET of possible successors
+Bump(f, r, d) == [f EXCEPT ![r] = f[r] + d]
+
+EnvSet(s, a) ==
+  LET u == s.wl.specRev IN
+  CASE a = "env.observe" ->
+         {Recount([s EXCEPT !.wl.genOk = TRUE, !.wl.updRev = u,
+                            !.wl.labelled = IF s.wl.updRev = u THEN s.wl.labelled ELSE 0])}
+    [] a = "env.update" ->      \* one pod of another revision is recreated (unready) at the update revision
+         {Recount([s EXCEPT !.wl.n = Bump(Bump(s.wl.n, r, -1), u, 1), !.wl.rd = Bump(s.wl.rd, r, -dr)]) :
+            r \in {x \in 1..3 : x # u /\ s.wl.n[x] > 0}, dr \in {0, 1}} 
+    [] a = "env.ready" ->
+         {Recount([s EXCEPT !.wl.rd = Bump(s.wl.rd, r, 1)]) : r \in {x \in 1..3 : s.wl.rd[x] < s.wl.n[x]}}
+    [] a = "env.unready" ->
+         {Recount([s EXCEPT !.wl.rd = Bump(s.wl.rd, u, -1)])}
+    [] a = "env.scale" ->
+         IF Pods(s) < s.wl.R
+         THEN {Recount([s EXCEPT !.wl.n = Bump(s.wl.n, r, 1)]) : r \in {u, s.wl.stableRev} \cap (1..3)}
+         ELSE {Recount([s EXCEPT !.wl.n = Bump(s.wl.n, r, -1), !.wl.rd = Bump(s.wl.rd, r, -dr), !.wl.labelled = s.wl.labelled - dl]) :
+                 r \in {x \in 1..3 : s.wl.n[x] > 0}, dr \in {0, 1}, dl \in {0, 1}}
+    [] OTHER -> {s}
+
+WellFormedPods(s) == \A r \in 1..3 : s.wl.rd[r] >= 0 /\ s.wl.rd[r] <= s.wl.n[r] /\ s.wl.n[r] >= 0
+
+\* --------------------------------------------------------------------- time
+TickStep(s) ==
+  [s EXCEPT !.ro.fresh = FALSE, !.ro.condFresh = FALSE,
+            !.mem.gold = SetToSeq(SeqToSet(s.mem.gold) \cup SeqToSet(s.mem.gf)), !.mem.gf = <<>>]
+
+\* --------------------------------------------------------------------- user
+\* the mutating webhook on a template change (workload_update_handler.go handleCloneSet): the workload is put
+\* on hold (partition 100%, in-progressing marker) iff an active Rollout matches and, with traffic routing,
+\* the workload runs a single revision
+WebhookHolds(s) ==
+  /\ s.wl.R > 0
+  /\ s.ro.exists /\ ~s.ro.deleting /\ s.ro.phase # "Disabled"
+  /\ (HasProvider(s) => s.wl.stRepl = s.wl.stUpdated)
+
+Release(s, rev) ==
+  LET s1 == [s EXCEPT !.user.rev = rev, !.wl.specRev = rev, !.wl.genOk = FALSE] IN
+  IF rev = s.wl.specRev THEN s
+  ELSE IF WebhookHolds(s) THEN [s1 EXCEPT !.wl.ktype = "pct", !.wl.kval = 100, !.wl.inprog = TRUE] ELSE s1
+
+UserSet(s, a) ==
+  CASE a = "user.approve" -> {[s EXCEPT !.ro.state = "StepReady"]}
+    [] a = "user.pause"   -> {[s EXCEPT !.user.paused = TRUE]}
+    [] a = "user.resume"  -> {[s EXCEPT !.user.paused = FALSE]}
+    [] a = "user.disable" -> {[s EXCEPT !.user.disabled = TRUE]}
+    [] a = "user.enable"  -> {[s EXCEPT !.user.disabled = FALSE]}
+    [] a = "user.delete"  -> {IF s.ro.finalizer THEN [s EXCEPT !.user.deleted = TRUE, !.ro.deleting = TRUE]
+                              ELSE [s EXCEPT !.user.deleted = TRUE, !.ro = GoneRo]}
+    [] a = "user.release2" -> {Release(s, 2)}
+    [] a = "user.release3" -> {Release(s, 3)}
+    [] a = "user.rollback" -> {[Release(s, 1) EXCEPT !.user.rolledBack = TRUE]}
+    [] a = "user.scale"    -> {[s EXCEPT !.wl.R = r, !.wl.genOk = FALSE] : r \in (1..12) \ {s.wl.R}}
+    [] a \in {"user.jump:1", "user.jump:2", "user.jump:3", "user.jump:4"} ->
+         {[s EXCEPT !.ro.next = CASE a = "user.jump:1" -> 1 [] a = "user.jump:2" -> 2 [] a = "user.jump:3" -> 3 [] OTHER -> 4]}
+    [] OTHER -> {s}
+
+\* ------------------------------------------------------------ the step function
+UserActs == {"user.approve", "user.pause", "user.resume", "user.disable", "user.enable", "user.delete", "user.release2",
+             "user.release3", "user.rollback", "user.scale", "user.jump:1", "user.jump:2", "user.jump:3", "user.jump:4"}
+EnvActs  == {"env.observe", "env.update", "env.ready", "env.unready", "env.scale"}
+
+Modelled(p, a) ==
+  /\ p.wl.exists => (p.wl.kind = "CloneSet" /\ p.wl.style = "partition")
+  /\ a \in {"ro", "br", "tick"} \cup EnvActs \cup UserActs
+
+\* successor set of one action (singletons for the deterministic controller reconciles)
+StepSet(p, a) ==
+  CASE a = "ro" -> {RoStep(p)}
+    [] a = "br" -> {BrStep(p)}
+    [] a = "tick" -> {TickStep(p)}
+    [] a \in EnvActs -> EnvSet(p, a)
+    [] OTHER -> UserSet(p, a)
+
+\* the fields the model claims (everything except ghost history, budgets and rollout-id strings)
+ModelView(s) == [ro |-> [s.ro EXCEPT !.rid = ""], br |-> [s.br EXCEPT !.rid = "", !.obsRid = ""],
+                 wl |-> [s.wl EXCEPT !.lab = <<>>], net |-> [s.net EXCEPT !.svcSelKeys = 0], mem |-> s.mem, user |-> s.user]
+
+RecDiff(a, b, pfx) == {pfx \o "." \o f : f \in {g \in DOMAIN a : a[g] # b[g]}}
+ViewDiff(a, b) ==
+  RecDiff(a.ro, b.ro, "ro") \cup RecDiff(a.br, b.br, "br") \cup RecDiff(a.wl, b.wl, "wl")
+    \cup RecDiff(a.net, b.net, "net") \cup RecDiff(a.mem, b.mem, "mem") \cup RecDiff(a.user, b.user, "user")
 =============================================================================
